@@ -370,6 +370,8 @@ class Reader:
                 callee = self.parse_value_ref()
                 arguments = self.parse_function_arguments()
                 ins = ir.FunctionCall(callee, arguments, name, ty)
+            elif a == "undefined":
+                ins = ir.Undefined(name, ty)
             elif a == "literal":
                 data = self.consume("STRING")[1]
                 data = unhexlify(data)
